@@ -514,13 +514,17 @@ func c14UserError(e *core.Env, rep *core.Report) {
 		"update": "package p\n\ntype error struct{ Code int }\ntype A struct{ V int }\ntype T struct{ V int }\n\n// goverter:converter\ntype Conv interface {\n\t// goverter:update target\n\tM(source A, target *T) error\n}\n",
 		"vars":   "package p\n\ntype error = string\ntype A struct{ V int }\ntype T struct{ V int }\n\n// goverter:variables\nvar (\n\tM func(source A) (T, error)\n)\n",
 	}
+	// functions that the output package cannot call
+	progs["default_unexported"] = "package p\n\ntype A struct{ V int }\ntype T struct{ V int }\nfunc newT() T { return T{} }\n\n// goverter:converter\ntype Conv interface {\n\t// goverter:default newT\n\tM(source A) T\n}\n"
+	progs["mapfunc_unexported"] = "package p\n\ntype A struct{ V int }\ntype T struct{ V int }\nfunc conv(v int) int { return v }\n\n// goverter:converter\ntype Conv interface {\n\t// goverter:map V V | conv\n\tM(source A) T\n}\n"
+	progs["extend_unexported"] = "package p\n\ntype A struct{ V KA }\ntype KA struct{ N int }\ntype T struct{ V KT }\ntype KT struct{ N int }\nfunc conv(v KA) KT { return KT{} }\n\n// goverter:converter\n// goverter:extend conv\ntype Conv interface {\n\tM(source A) T\n}\n"
 	for name, src := range progs {
 		dir := filepath.Join(root, name)
 		writeFiles(dir, map[string]string{"p/input.go": src})
 		gr := runGen(e, bin, dir, dir, []string{"gen", "./p"}, nil)
 		rep.Evaluations++
 		if gr.Exit != 1 || strings.TrimSpace(gr.Stderr) == "" {
-			rep.Violation(&core.Viol{Kind: "invalid_signature_accepted", Case: "usererror_" + name, Summary: fmt.Sprintf("a user type named error as second result / update result was accepted (exit %d)", gr.Exit), Detail: src + "\n" + gr.Stderr, Dir: dir, Tags: []string{"use:usererror"}})
+			rep.Violation(&core.Viol{Kind: "invalid_signature_accepted", Case: "usererror_" + name, Summary: fmt.Sprintf("%s: a signature that must be rejected (user type named error / function the output package cannot call) was accepted (exit %d)", name, gr.Exit), Detail: src + "\n" + gr.Stderr, Dir: dir, Tags: []string{"use:usererror"}})
 			continue
 		}
 		rep.NonTrivial("usererror|" + name)
